@@ -661,6 +661,9 @@ func (x *Exec) evalCall(env *Env, e *ECall) (Value, types.Type) {
 		sv, _ := x.eval(env, e.Args[0])
 		iv, _ := x.eval(env, e.Args[1])
 		return ufApp(ufSRune, sv.(*Term), iv.(*Term)), types.Typ[types.Int32]
+	case "asiface": // asiface(e): the value e boxed into an interface (the `self` an interface contract speaks about)
+		v, t := x.eval(env, e.Args[0])
+		return x.box(env.st, t, v), types.NewInterfaceType(nil, nil)
 	case "runeLen": // runeLen(s): number of runes of string s (len([]rune(s)))
 		sv, _ := x.eval(env, e.Args[0])
 		return ufApp(ufSRuneLen, sv.(*Term)), types.Typ[types.Int]
@@ -782,6 +785,14 @@ func (x *Exec) evalPredLike(env *Env, e *ECall, params []Param, body Expr, pkgPa
 
 // readsHeap resolves a `reads Type.field` entry to the heap array it denotes.
 func (x *Exec) readsHeap(env *Env, rd string) (string, Sort) {
+	if strings.HasPrefix(rd, "[]") { // the elements of slices of that type
+		et := env.resolveType(rd[2:])
+		cs := comps(et)
+		if _, isStruct := isStructType(et); isStruct || len(cs) != 1 {
+			panic("reads: only slices of scalars are supported: " + rd)
+		}
+		return elemHeapName(et, cs[0].Suffix), arrSort(SInt, arrSort(SInt, cs[0].Sort))
+	}
 	i := strings.LastIndex(rd, ".")
 	T := env.resolveType(rd[:i])
 	st, ok := isStructType(T)
